@@ -60,7 +60,7 @@ def dp(s1, s2, fn, border=None, window=None, max_dist=None,
     r, c = len(s1), len(s2)
     # Set default parameters
     if max_length_diff is not None and abs(r - c) > max_length_diff:
-        return np.inf
+        return np.inf, None, None
     if window is None:
         window = max(r, c)
     if not max_step:
@@ -125,7 +125,7 @@ def dp(s1, s2, fn, border=None, window=None, max_dist=None,
                     if prev_last_under_max_dist < j1:
                         break
         if max_dist is not None and last_under_max_dist == -1:
-            return np.inf, scores
+            return np.inf, scores, paths
     if psi == 0:
         d = scores[i1, min(c, c + window - 1)]
     else:
